@@ -129,6 +129,9 @@ ListLen(a) == LET d == CHOOSE d \in ListDims(a) : TRUE IN Len(SelOf(a, d).v)
 Dom_slice(f, a) ==
   /\ NoDup([i \in 1..Len(a.sels) |-> a.sels[i].d])
   /\ \A i \in 1..Len(a.sels) : HasDim(f, a.sels[i].d) /\ SelInDomain(DimLen(f, a.sels[i].d), a.sels[i].s)
+  \* (a boolean index array is used on its own: with index lists numpy's
+  \* broadcasting rules would apply)
+  /\ (\E i \in 1..Len(a.sels) : a.sels[i].s.k = "bool") => ListDims(a) = {}
   /\ MultiList(a) => /\ \A d \in ListDims(a) : Len(SelOf(a, d).v) = ListLen(a)
                      /\ ~HasDim(f, a.newdim)
   \* a coordinate variable decides the new length: it must be 1-D on its own dimension
